@@ -132,13 +132,59 @@ var ctxArmExceptions = map[string]string{
 	"parallel.MapStream|send:ready":        "pre-fill loop: sends exactly bufferSize tokens into a channel created with capacity bufferSize (same SSA value), before any goroutine exists",
 }
 
-func ruleCtxArm(c *Ctx, r *R) {
+// blocksWithoutCtx: fn takes no context and can block for an unbounded time: a bare channel receive / send / range, a blocking
+// select, or time.Sleep.
+func blocksWithoutCtx(fn *ssa.Function) string {
+	if fn == nil || fn.Blocks == nil || ctxParam(fn) != nil {
+		return ""
+	}
+	why := ""
+	for _, op := range chanOpsOf(fn) {
+		if op.blocking && why == "" {
+			why = "a blocking " + op.kind
+		}
+	}
+	instrs(fn, func(b *ssa.BasicBlock, i int, in ssa.Instruction) {
+		if call, ok := in.(*ssa.Call); ok && isCallTo(&call.Call, "time", "", "Sleep") && why == "" {
+			why = "time.Sleep"
+		}
+	})
+	return why
+}
+
+func ruleCtxArm(c *Ctx, r *R) { ruleCtxArmIn(c, r, "") }
+
+// ruleCtxArmIn: the rule restricted to one package ("" = the whole module).
+func ruleCtxArmIn(c *Ctx, r *R, onlyRel string) {
 	for _, fn := range c.Funcs {
 		p := ctxParam(fn)
 		if p == nil || fn.Parent() != nil {
 			continue
 		}
+		if onlyRel != "" && rootFn(fn).Pkg != c.SSA[onlyRel] {
+			continue
+		}
 		name := c.nameOf(fn)
+		// calls that block without any way for the context to interrupt them: time.Sleep, or an in-module function that
+		// takes no context and blocks on a channel (f.Wait() inside f.WaitContext)
+		nc := 0
+		instrs(fn, func(b *ssa.BasicBlock, i int, in ssa.Instruction) {
+			call, ok := in.(*ssa.Call)
+			if !ok {
+				return
+			}
+			if isCallTo(&call.Call, "time", "", "Sleep") {
+				nc++
+				r.violated(name+"|time.Sleep#"+itoa(nc), call.Pos(), "time.Sleep in a function that takes a context: the sleep cannot be interrupted when the context ends (cancellation, parent cancellation)")
+				return
+			}
+			if cal := staticCallee(&call.Call); cal != nil && c.inModule(cal) && cal.Parent() == nil {
+				if why := blocksWithoutCtx(cal); why != "" {
+					nc++
+					r.violated(name+"|blocking-call:"+cal.Name()+"#"+itoa(nc), call.Pos(), "call of "+funcShort(cal)+", which contains "+why+" and takes no context, in a function that takes a context: it cannot be interrupted when the context ends")
+				}
+			}
+		})
 		n := 0
 		for _, op := range chanOpsOf(fn) {
 			if !op.blocking {
